@@ -523,10 +523,13 @@ def run_pitfall(case):
     if got != want:
         raise Violation("Pitfall {}: the pitfall gadgets 'y_a v y_b v ~p_t' are not the documented ones: {} missing, {} extra".format(
             case, len(want - got), len(got - want)))
-    # every part has a fixed number of clauses: hard (Tseitin) + pitfall + pipe + tail (4 per pair y,z) + easy part (one per pair of consecutive y)
-    exp_rows = k * (v * 2 ** (d - 1) + (ny * (ny - 1) // 2) * (nx + nz) + ny * (nx + nz) + 4 * ny * nz) + ny // 2
-    if len(cls) != exp_rows:
-        raise Violation("Pitfall {}: {} clauses, the five parts add up to {}".format(case, len(cls), exp_rows))
+    # every part has a fixed number of distinct clauses: hard (Tseitin) + pitfall + pipe + tail (two per z, two per pair y,z)
+    # + easy part (one per pair of consecutive y); repetitions of a clause are not counted (the tail repeats its first two
+    # clauses for every y, which is immaterial)
+    exp_rows = k * (v * 2 ** (d - 1) + (ny * (ny - 1) // 2) * (nx + nz) + ny * (nx + nz) + 2 * nz + 2 * ny * nz) + ny // 2
+    distinct = len(set(frozenset(c) for c in cls))
+    if distinct != exp_rows:
+        raise Violation("Pitfall {}: {} distinct clauses, the five parts add up to {}".format(case, distinct, exp_rows))
     if sat.is_sat(nv, cls):
         raise Violation("Pitfall {}: the formula is satisfiable".format(case))
     return Outcome(labels=['unsat', 'k={}'.format(k), 'd={}'.format(d), 'ny={}'.format(min(ny, 3))], nontrivial=True)
